@@ -291,7 +291,8 @@ def _only_compared(f, name):
 class Analysis:
     """Interval + fact analysis of one function."""
 
-    def __init__(self, ctx, f, param_iv=None):
+    def __init__(self, ctx, f, param_iv=None, extra_init=None):
+        self.extra_init = extra_init or {}     # access path ("sp->count[0]") -> interval at function entry
         self.ctx = ctx            # Context (program-wide helpers)
         self.prog = ctx.prog
         self.sums = ctx.sums
@@ -311,6 +312,18 @@ class Analysis:
                 k = ("iv", p["name"])
                 init[k] = iv
                 self._keyinfo_path(k, None, p["name"])
+        if self.extra_init:
+            want = dict(self.extra_init)
+            for n, e in enumerate(f.exprs):
+                if not want:
+                    break
+                if e["k"] in ("mem", "idx") and "it" in e:
+                    pth = ex.path(f, n)
+                    if pth in want:
+                        k = self.track_key(n)
+                        if k is not None:
+                            init[k] = want.pop(pth)
+            self.extra_missing = sorted(want)
         self.caps = {}
         self.IN = self._forward(init)
         # second phase: counters of loops with a bounded trip count are capped
